@@ -1,5 +1,5 @@
 import IblVerif.Model.Proto
-import IblVerif.Model.SyncTs
+import IblVerif.Model.SyncTsFull
 open IblVerif IblVerif.Proto IblVerif.SyncTs
 
 /-!
@@ -10,6 +10,12 @@ of each request), i.e. the exact value of the float64 the Python code works with
     sync   K Δ θ tsa tsb fa       → ok ia=… ib=…   |  err ValueError        (fa[i] = fcn_a2b(tsa[i]))
     bins   K tmin tmax tbin ts    → ok n=<vector length> idx=<bin of every t> inrange=<0|1>
     pmax   ns imax v0 v1 v2       → ok <num> <den>   (parabolic_max(x)[0] as an exact fraction; integers in)
+    coarse K tbin tsa tsb         → ok n=<x.shape[0]> lag=<argmax - n + 1> v=<corr at lag-1,lag,lag+1> ties=<number of lags
+                                    with the maximal correlation> delta=<num>/<den>     |  err ValueError
+    closed K tbin lin tsa tsb q   → ok ia=… ib=… drift=<num>/<den> map=<fcn_a2b(q[k]) as num/den,…> n=… lag=… ties=… delta=…
+                                    |  err ValueError  |  undetermined       (the whole function from (tsa, tsb, tbin, linear))
+    interp K xs ys q              → ok <interp1d(xs, ys, fill_value="extrapolate")(q[k]) as num/den,…>  |  undetermined
+    fit    K xs ys                → ok <slope num/den> <intercept num/den>  |  undetermined      (np.polyfit(xs, ys, 1))
 -/
 
 def ratOf (K : Nat) (n : Int) : Rat := mkRat n (2 ^ K)
@@ -19,8 +25,71 @@ def ratList? (K : Nat) (s : String) : Option (List Rat) := (intList? s).map (·.
 def showIb (ib : List (Option Nat)) : String :=
   showList (ib.map fun o => match o with | some j => (j : Int) | none => -1)
 
+def showRat (r : Rat) : String := s!"{r.num}/{r.den}"
+
+def showRats (l : List Rat) : String := if l.isEmpty then "-" else ",".intercalate (l.map showRat)
+
+/-- number of lags at which the correlation takes its maximal value `c` (more than one: the first one is the model's
+answer, the floating-point correlation of the code may prefer another) -/
+def tiesAt (tsa tsb : List Rat) (tbin : Rat) (c : Nat) : Nat :=
+  match listMin (tsa ++ tsb) with
+  | none => 0
+  | some tmin =>
+    ((rle ((diffs (occupied tmin tbin tsa) (occupied tmin tbin tsb)).mergeSort fun a b => decide (a ≤ b))).filter
+      fun p => p.2 = c).length
+
+def showCoarse (tsa tsb : List Rat) (tbin : Rat) (c : Coarse) : String :=
+  s!"n={c.n} lag={c.lag} v={c.v0},{c.v1},{c.v2} ties={tiesAt tsa tsb tbin c.v1} delta={showRat c.delta}"
+
 def step (t : List String) : String :=
   match t with
+  | ["coarse", k, tb, a, b] =>
+    match nat? k, int? tb with
+    | some K, some tb =>
+      match ratList? K a, ratList? K b with
+      | some tsa, some tsb =>
+        match coarse tsa tsb (ratOf K tb) with
+        | none => "err ValueError"
+        | some c => "ok " ++ showCoarse tsa tsb (ratOf K tb) c
+      | _, _ => "bad-op"
+    | _, _ => "bad-op"
+  | ["closed", k, tb, lin, a, b, q] =>
+    match nat? k, int? tb, nat? lin with
+    | some K, some tb, some lin =>
+      match ratList? K a, ratList? K b, ratList? K q with
+      | some tsa, some tsb, some qs =>
+        match syncClosed tsa tsb (ratOf K tb) (lin != 0) with
+        | .errValueError => "err ValueError"
+        | .undetermined => "undetermined"
+        | .ok ps drift nodes c =>
+          match mapOf (lin != 0) nodes with
+          | none => "undetermined"
+          | some f =>
+            s!"ok ia={showList (ps.map (·.1))} ib={showList (ps.map (·.2))} drift={showRat drift} map={showRats (qs.map f)} "
+              ++ showCoarse tsa tsb (ratOf K tb) c
+      | _, _, _ => "bad-op"
+    | _, _, _ => "bad-op"
+  | ["interp", k, xs, ys, q] =>
+    match nat? k with
+    | some K =>
+      match ratList? K xs, ratList? K ys, ratList? K q with
+      | some xs, some ys, some qs =>
+        let s := sortNodes (xs.zip ys)
+        match qs.mapM (interpEval s) with
+        | some vs => "ok " ++ showRats vs
+        | none => "undetermined"
+      | _, _, _ => "bad-op"
+    | none => "bad-op"
+  | ["fit", k, xs, ys] =>
+    match nat? k with
+    | some K =>
+      match ratList? K xs, ratList? K ys with
+      | some xs, some ys =>
+        match fitLine xs ys with
+        | some (m, c) => s!"ok {showRat m} {showRat c}"
+        | none => "undetermined"
+      | _, _ => "bad-op"
+    | none => "bad-op"
   | ["pass1", k, d, th, a, b] =>
     match nat? k, int? d, int? th with
     | some K, some d, some th =>
